@@ -52,6 +52,12 @@ CLAIMED = {
     text='Generated initial-condition sets (0-40 blocks, 1-12 variables, negative/zero/3-digit-exponent values, optional porosity, TOUGHREACT permeabilities incl. zeros, nseq/nadd, timing x reset, names of all four conventions and (A3,I2) quirk forms) are written by the real writer, re-read by the real reader and compared with the expected model (reals through the carrying field format, exactly); the re-read object is written again and must reproduce the first file byte for byte; the header of a non-reset file must announce the block count and time. Independently, SAVE-like files emitted by an own Fortran-style writer (0.ddddE+xx and 1P styles, letter-less 3-digit exponents, long header, both timing layouts) must be decoded to the emitted model. The 7 shipped files go through the same cycle; every record written is re-sliced in situ by the C02 monitor.',
     note='Trusted: vf/oracle/fortran_writer.py, the expected-model projection in vf/props/c13.py. Domain: values fit their fields; the TOUGHREACT flavour is only claimed when some block carries permeabilities (the only way a file shows it); convention-3 names are read with check_blocknames=False as documented.',
     design='DESIGN.md §3 C13'),
+
+ 'C03': dict(
+    technique='runtime round-trip monitor: geometry model projected through the two-decimal coordinate fields and unit scale, byte identity of rewrite, own re-parse of feet files, independent Fortran-style geometry writer feeding the real reader',
+    text='Generated geometries (rectangular with random spacings x 4 conventions x 3 atmosphere types x metres/feet x 3 block orders x case, random surfaces below/on/above layer boundaries, wells, specified centres incl. ones on a coordinate axis, layers centred on zero, tilt and permeability angle, coordinates near the 10-column limit) and shipped geometries with refined/rotated/translated/reduced derivatives are written by the real writer and re-read: the re-read model must equal the projection of the original through the file precision, the block and connection name lists must be identical, a second write must be byte-identical, and for feet the node records of the file itself are re-parsed by own column arithmetic and must hold metres/0.3048 under a FEET header. Files emitted by an own Fortran-style writer (keyword variants, blank flags and layer centres, E styles) must be decoded to the emitted model.',
+    note='Trusted: layout transcribed from doc/source/mulformat.rst in vf/props/c03.py emit_geometry(), vf/oracle/fortran_writer.py. Right-justified names only. Failures while *building* derived geometries are reported as foreign observations for C10, not as round-trip violations.',
+    design='DESIGN.md §3 C03'),
 }
 
 def main():
